@@ -252,24 +252,23 @@ class Model:
             tname, how = tgt['direct'][0], ('direct', tgt['direct'][1])
         else:
             tname, how = tgt['entry_pt'][0], ('entry_pt', tgt['entry_pt'][1])
-        prev = self.inflight
-        self.inflight = [ms, r_, srcname, tname, 'guard_done']
+        # the id reported for the transitioning region switches from source to target at the point the
+        # active-state-switch policy documents (after the guard / exit / action / entry)
+        def reached(phase):
+            ms.active[r_] = self.policy_state(srcname, tname, phase)
+        reached('guard_done')
         try:
             self.do_exit_state(ms, srcname, ev)
-            self.inflight[4] = 'exit_done'
+            reached('exit_done')
             for a in acts:
                 self.tok('a%d/%s' % (a, self.evdesc(ev)))
                 self.callback(ms)
-            self.inflight[4] = 'action_done'
+            reached('action_done')
             self.do_entry_state_noc(ms, r_, tname, ev, how)
-            self.inflight[4] = 'entry_done'
-            ms.active[r_] = tname
+            reached('entry_done')
         except ModelThrow:
-            # the active state is what the switch policy prescribes for the phase reached
-            ms.active[r_] = self.policy_state(srcname, tname, self.inflight[4])
-            self.inflight = prev
+            # the active state stays what the switch policy prescribes for the phase reached
             raise
-        self.inflight = prev
         if self.dialect == 'mp11':
             self.mp11_entry_completed(ms, r_, tname)
         tst = ms.m['states'][tname]
@@ -673,5 +672,21 @@ class Model:
             return len(ms.queue) + len(ms.deferred)
         return len(ms.pool)
 
+    def active_flags(self, ms):
+        """flags carried by the configuration reported as active (recursively through reported submachine states)"""
+        out = set()
+        for s in ms.active:
+            st = ms.m['states'][s]
+            if st['kind'] == 'sub':
+                out |= set(st['machine'].get('as_state', {}).get('flags') or [])
+                out |= self.active_flags(ms.subs[s])
+            else:
+                out |= set(st.get('flags') or [])
+        return out
+
     def probe_inside(self):
-        return ''
+        body = self.ids()[4:-1]
+        fl = self.active_flags(self.root)
+        for f in self.spec.get('flags', []):
+            body += '%s=%d;' % (f, 1 if f in fl else 0)
+        return body
